@@ -251,6 +251,13 @@ def gen_case(rng, features=None, max_datasets=4, allow_full=True, allow_two_grou
                 params[pl] = {"value": float(np.round(rng.uniform(0.5, 2.0), 3)), "vary": False}
                 ds["mc_scale"].append(pl)
         datasets.append(ds)
+    scaled = [d for d in datasets if d.get("scale")]
+    if len(scaled) >= 2 and rng.integers(3) == 0:
+        # two (or more) parameters tied to one free parameter by the same expression: expression parameters with EQUAL values
+        params["scale.c"] = {"value": float(np.round(rng.uniform(0.5, 2.0), 3)), "vary": True}
+        for d in scaled:
+            params[d["scale"]] = {"value": params["scale.c"]["value"], "expr": "$scale.c"}
+        F["expression_twins"] = True
     if full_model:
         # full-model datasets: own group semantics (never linked); no dataset scale, no reduction
         gmcs["gm1"] = {"labels": ["x", "y"], "centers": ["gc.1", "gc.2"], "width": "gc.w"}
